@@ -6,7 +6,7 @@ import math
 RULE = ("random pairs of planar segments and polylines (1..4 segments each, float data): transversal crossings strictly inside segments "
         "(several per pair), disjoint pairs with overlapping and with disjoint bounding boxes; a few degree-2/3 and rational pairs (soundness "
         "conditions only).  Non-trivial: more than one segment on a side or at least one crossing; distinct = distinct (A, B)."
-        " Also: single-span operands that clean() could reduce.")
+        " Also: single-span operands that clean() could reduce; the same pairs translated far from the origin (offsets 1e4..2.5e5).")
 EXPLANATION = ("L3: the exact crossing oracle (`geom.cross`, Cramer over Q on every pair of segments) lists all meeting pairs and classifies the "
                "pair as transversal / touching / degenerate; every returned pair is re-evaluated (|A(t)-B(u)| <= 1e-6, inside both intervals, no "
                "duplicates), disjoint curves must give the empty tuple, and every transversal crossing must be present.")
@@ -84,8 +84,25 @@ def polyline(rng, nseg, box):
     return dict(U=[F(0), F(0)] + ks + [F(1), F(1)], P=pts, W=None)
 
 
+def far(rng, A, B):
+    """the same pair of curves translated far from the origin (coordinates much larger than the segments): the meeting parameters are
+    the same, nothing in the answer may depend on where the curves sit in the plane"""
+    ox, oy = rng.choice([(100000, 200000), (-30000, 45000), (12345, -54321), (250000, 0)])
+    mv = lambda C: dict(U=C["U"], P=[(x + ox, y + oy) for x, y in C["P"]], W=C["W"])       # noqa: E731
+    return mv(A), mv(B)
+
+
 def run(ctx):
     rng = ctx["rng"]
+    run_case_plain = run_case
+
+    def run_case_far(ctx_, case_):
+        run_case_plain(ctx_, case_)
+        c_ = de(case_)
+        if c_.get("label") in ("cross", "zigzag", "doublepoint", "mixed") and rng.random() < 0.4:
+            A_, B_ = far(rng, dict(U=c_["A"]["U"], P=[tuple(q) for q in c_["A"]["P"]], W=c_["A"]["W"]),
+                         dict(U=c_["B"]["U"], P=[tuple(q) for q in c_["B"]["P"]], W=c_["B"]["W"]))
+            run_case_plain(ctx_, ser(dict(kind="pair", label=c_["label"] + "-far", A=A_, B=B_)))
     # corpus: D15 witnesses (disjoint segments: np.min of empty / closest pairs kept)
     seg = lambda p, q: dict(U=[F(0), F(0), F(1), F(1)], P=[p, q], W=None)   # noqa: E731
     run_case(ctx, ser(dict(kind="pair", label="disjoint", A=seg((F(0), F(0)), (F(1), F(0))), B=seg((F(0), F(1)), (F(1), F(1))))))
@@ -105,7 +122,7 @@ def run(ctx):
             A = dict(U=[F(0), F(0), F(1), F(1)], P=[(cx - dx, cy - 2 * h), (cx + dx, cy + 2 * h)], W=None)
             if rng.random() < 0.5:
                 A, B = B, A
-            run_case(ctx, ser(dict(kind="pair", label=label, A=A, B=B)))
+            run_case_far(ctx, ser(dict(kind="pair", label=label, A=A, B=B)))
             continue
         if label == "zigzag":
             # A zigzags across a nearly horizontal B: one transversal crossing per segment of A
@@ -116,7 +133,7 @@ def run(ctx):
             B = dict(U=[F(0), F(0), F(1), F(1)], P=[(F(-5), F(rng.randint(-2, 2), 8)), (F(5), F(rng.randint(-2, 2), 8))], W=None)
             if rng.random() < 0.5:
                 A, B = B, A
-            run_case(ctx, ser(dict(kind="pair", label=label, A=A, B=B)))
+            run_case_far(ctx, ser(dict(kind="pair", label=label, A=A, B=B)))
             continue
         if label == "farboxes":
             A = polyline(rng, na, ((-4, -1), (-4, 4)))
@@ -128,7 +145,7 @@ def run(ctx):
         else:
             A = polyline(rng, na, ((-4, 4), (-4, 4)))
             B = polyline(rng, nb, ((-4, 4), (-4, 4)))
-        run_case(ctx, ser(dict(kind="pair", label=label, A=A, B=B)))
+        run_case_far(ctx, ser(dict(kind="pair", label=label, A=A, B=B)))
     for i in range(budget(ctx, 12, 120)):
         # single-span operands that clean() could simplify: they must come back untouched
         A, ka = reducible_bezier(rng, 2)
